@@ -80,7 +80,13 @@ def _plan(draw, max_len):
         na = {"f": gen.NAN, "s": ""}.get(kind)
         vals = [na if gg == g else v for v, gg in zip(vals, groups)]
     args = {}
-    if h not in ("all", "any") and draw(st.integers(0, 2)):
+    if h in ("median", "quantile", "mean", "sum", "std", "var", "min", "max") and kind == "f" and draw(st.integers(0, 3)) == 0:
+        # missing values kept on purpose: groups of 3 .. 9 values with a NaN in the minority (it must still propagate)
+        n = draw(st.integers(3, 9))
+        vals = [draw(st.sampled_from([gen.NAN, 5.0, 13.0, 7.0, 1.0, 9.5, 2.0, 2.0])) for _ in range(n)]
+        groups = [draw(st.integers(0, 1)) for _ in range(n)]
+        args["drop_na"] = False
+    elif h not in ("all", "any") and draw(st.integers(0, 2)):
         args["drop_na"] = draw(st.booleans())
         if draw(st.integers(0, 3)) == 0:
             args["_flagkind"] = draw(st.sampled_from(["np", "int"]))       # np.bool_ / 0-1 instead of a Python bool
